@@ -2,7 +2,7 @@
    plan), every shim script and every configuration, the model's run of a connection never runs out
    of fuel -- the fuel computed from the input is always enough, i.e. the loops terminate -- and
    any panic it reports is one of the named, data-reachable sites.  Proofs only; statements fixed. *)
-From MsqlVerif Require Import Model.Server Proofs.BaseLemmas.
+From MsqlVerif Require Import Model.Server Proofs.BaseLemmas Proofs.HdrLemmas.
 From Coq Require Import Lia.
 Open Scope N_scope.
 
@@ -1049,14 +1049,15 @@ Proof.
   apply W_bind; [apply W_log_call | intro].
   destruct prog; zauto; apply W_api_ret; zauto.
 Qed.
-(* on_execute pulls from the very state (pstate_of) and with the very fuel params_valid checked *)
+(* on_execute pulls with the very fuel params_valid checked, from the state whose header validate()
+   has already read (pstate_hdr): the first Params::next step is the same as from pstate_of *)
 Lemma W_on_execute_z id sd params sc : scripts_tame sc -> params_valid fpext sd params = true ->
   W np0 (on_execute fpext fptrunc errtab id sd params sc).
 Proof.
   intros H Hv. unfold on_execute. destruct (pop_x_tame sc H) as (H1 & H2 & _).
   destruct (pop_x sc) as [x sc']. cbn [fst] in H1, H2.
   apply W_bind; [apply W_log_call | intros _]. cbv zeta.
-  apply W_bind; [apply W_pull_params_z; [exact H2 | exact Hv] | intro p].
+  apply W_bind; [apply W_pull_params_z; [exact H2 | rewrite params_valid_hdr; exact Hv] | intro p].
   zauto.
 Qed.
 #[local] Hint Resolve W_on_query_z W_on_init_z W_on_prepare_z : zdb.
